@@ -182,6 +182,11 @@ def run_case_subnet(job):
     except Exception as e:  # noqa
         return {"id": job["id"], "skip": "build:%s" % type(e).__name__}
     opts = dict(job.get("opts") or {})
+    if job.get("stored_options"):
+        # the calculation options are stored ON the net (set_user_pf_options) and nothing is passed with the call: the subnet has to
+        # carry them along to reproduce the region's results
+        pp.set_user_pf_options(net, **dict(opts, friction_model="colebrook", max_iter_colebrook=60))
+        opts = {}
     outcome = run_pipeflow(net, opts)
     case = {"id": job["id"], "outcome": outcome, "oclass": oclass(outcome), "check": job.get("check", []),
             "mode": opts.get("mode", "hydraulics"), "net": netio.project(net), "converged": bool(net.get("converged", False)),
